@@ -631,4 +631,84 @@ example : (insertParagraph exStart 1).root.text =
 example : (removeParagraph exStart 0).root.text = "# lead\n\n# between\nPackage: bar".toList := by
   decide +kernel
 
+/-! ## whole histories against the oracle's list-of-lists model (oracle steps (1), (2), and (4))
+
+  The machinery is `Props/C04.lean` (`C04_step_refines`, `C04_history_refines`) on top of
+  `Lemmas/DebEditHandles.lean`; here the statements for the start states of the harness. -/
+
+/-- **start = the parse of ANY text** (well-formed or not), ANY history of field edits and
+    paragraph operations through any handle numbers — live, dead, never handed out, returned by
+    `add_paragraph` / `insert_paragraph` — with any names, values and indices. With
+    `M = mrun (LModel.init kids) ops` (the oracle's `ListModel` run alongside):
+    (1) every handle number reads what the model says: unknown / dead on both sides / live on a
+        PARAGRAPH node with exactly the model's fields;
+    (2) the paragraphs of the document, in order, are `M.order` looked up in `M.paras`;
+    and every handle in `M.order` is live. Every prefix of a history is a history, so this holds
+    after every step. -/
+theorem C05_history_refines (s : Str) (ops : List EditOp) :
+    let kids := (parse s).tree.children
+    let d' := run (startOf kids) ops
+    let M := mrun (LModel.init kids) ops
+    (∀ j : Nat, match M.paras[j]? with
+      | none => d'.handles.length ≤ j ∧ d'.para j = none
+      | some none => d'.handles[j]? = some none ∧ d'.para j = none
+      | some (some m) => ∃ n, d'.para j = some n ∧ isParaNode n = true ∧ items n = m)
+    ∧ ditems d'.kids = M.order.map (fun h => ((M.paras[h]?).join).getD [])
+    ∧ ∀ h ∈ M.order, ∃ m, M.paras[h]? = some (some m) :=
+  C04_history_oracle _ (parse_allNodes s) ops
+
+/-- the same for a start document built with `FromIterator` from any paragraphs -/
+theorem C05_history_refines_built (ps : List (List (Str × Str))) (ops : List EditOp) :
+    let kids := docOfParas (ps.map paraOfPairs)
+    let d' := run (startOf kids) ops
+    let M := mrun (LModel.init kids) ops
+    (∀ j : Nat, match M.paras[j]? with
+      | none => d'.handles.length ≤ j ∧ d'.para j = none
+      | some none => d'.handles[j]? = some none ∧ d'.para j = none
+      | some (some m) => ∃ n, d'.para j = some n ∧ isParaNode n = true ∧ items n = m)
+    ∧ ditems d'.kids = M.order.map (fun h => ((M.paras[h]?).join).getD [])
+    ∧ ∀ h ∈ M.order, ∃ m, M.paras[h]? = some (some m) := by
+  apply C04_history_oracle
+  apply built_allNodes
+  intro c hc
+  simp only [List.mem_map] at hc
+  obtain ⟨p, _, rfl⟩ := hc
+  rfl
+
+/-- **oracle step (4) in terms of the model**: on a parsed well-formed document and valid
+    arguments, the printed document re-reads — strictly, without error — to exactly the model's
+    paragraphs in the model's order, the empty ones left out -/
+theorem C05_history_reread_model (d0 : DocS) (hwf : d0.WF) (ops : List EditOp) (hv : ∀ o ∈ ops, o.Valid) :
+    let d' := run (startOf d0.tree.children) ops
+    let M := mrun (LModel.init d0.tree.children) ops
+    ∃ s : DocS, s.WF ∧ s.str = d'.root.text ∧ parse d'.root.text = ⟨s.tree, []⟩
+      ∧ readStrict d'.root.text = .ok s.tree
+      ∧ docItems s.tree = (M.order.map (fun h => ((M.paras[h]?).join).getD [])).filter nonEmpty := by
+  obtain ⟨s, h1, h2, h3, h4, h5⟩ := C05_reread_history d0 hwf (startOf d0.tree.children) rfl ops hv
+  refine ⟨s, h1, h2, h3, h4, ?_⟩
+  rw [h5]
+  have := (C04_history_oracle d0.tree.children (kids_allNodes d0) ops).2.1
+  exact congrArg (List.filter nonEmpty) this
+
+/-! examples -/
+
+example : exStart = startOf C03.exDoc.tree.children := C04.exEditDoc_start
+example : (parse C03.exDoc.str).tree.children = C03.exDoc.tree.children :=
+  (C04_start_parsed C03.exDoc (by decide)).1
+
+/-- paragraph operations only, through the model: insert in front, remove the old first paragraph
+    (now index 1), add one, remove beyond the end (nothing happens) -/
+example : mrun (LModel.init exStart.kids) [.insp 0, .rmp 1, .addp, .rmp 7] =
+    ⟨[none, some [("Package".toList, "bar".toList)], some [], some []], [2, 1, 3]⟩ := by
+  decide +kernel
+
+example : ditems (run exStart [.insp 0, .rmp 1, .addp, .rmp 7]).kids =
+    [[], [("Package".toList, "bar".toList)], []] := by
+  have h : exStart = startOf C03.exDoc.tree.children := C04.exEditDoc_start
+  rw [h]
+  have := (C04_history_oracle C03.exDoc.tree.children (by decide) [.insp 0, .rmp 1, .addp, .rmp 7]).2.1
+  rw [show ditems (run (startOf C03.exDoc.tree.children) [.insp 0, .rmp 1, .addp, .rmp 7]).kids =
+    docItems (run (startOf C03.exDoc.tree.children) [.insp 0, .rmp 1, .addp, .rmp 7]).root from rfl, this]
+  decide +kernel
+
 end Deb822Verif.Props.C05
